@@ -981,6 +981,29 @@ alignZAxisWithTargetDir (Matrix44<T>& result, Vec3<T> targetDir, Vec3<T> upDir)
     if (upDir.length () == 0) upDir = Vec3<T> (0, 1, 0);
 
     //
+    // Only the directions of targetDir and upDir matter.  Scale both
+    // by an exact power of two to a magnitude near one, so that the
+    // cross products below, which are quadratic and cubic in the
+    // arguments, neither overflow nor underflow.
+    //
+
+    for (Vec3<T>* v : {&targetDir, &upDir})
+    {
+        const T m = std::max (
+            std::max (std::abs (v->x), std::abs (v->y)), std::abs (v->z));
+
+        if (m > 0 && m <= std::numeric_limits<T>::max ())
+        {
+            int e = 0;
+            (void) std::frexp (m, &e);
+            *v = Vec3<T> (
+                std::ldexp (v->x, -e),
+                std::ldexp (v->y, -e),
+                std::ldexp (v->z, -e));
+        }
+    }
+
+    //
     // Check for degeneracies.  If the upDir and targetDir are parallel
     // or opposite, then compute a new, arbitrary up direction that is
     // not parallel or opposite to the targetDir.
